@@ -357,7 +357,7 @@ class Interp:
         v = self.val_of_operand(body, st, op)
         if v and v[0] == "sem":
             return v[1]
-        if v and v[0] == "param" and any(t in body.local_ty(v[1]) for t in self.cfg.sem_types):
+        if v and v[0] in ("param", "pderef") and any(t in body.local_ty(v[1]) for t in self.cfg.sem_types):
             return ("param", v[1])
         if v and v[0] == "ref":
             l = v[1]
